@@ -163,6 +163,10 @@ Definition opt_phase_eqb (A : option mat) (B : mat) : bool :=
 Definition opt_meqb (A : option mat) (B : mat) : bool :=
   match A with Some A' => meqb A' B | None => false end.
 
+(* every entry has at most 64 coefficients (canonical forms have at most 32) *)
+Definition mshort (A : mat) : bool :=
+  forallb (forallb (fun x => Nat.leb (List.length (kc x)) 64)) A.
+
 (* ---- serialisation for the harness (exact values printed, parsed by python) ---- *)
 Definition kser (a : K32) : list Z := Z.of_nat (ke a) :: kc a.      (* denominator exponent, then coefficients *)
 Definition mser (A : mat) : list (list (list Z)) := map (map kser) A.
